@@ -50,10 +50,26 @@ def case(ctx, i):
     d = ctx.casedir(i)
     kinds = sorted(mutate.BREAKING)
     kind = kinds[i % len(kinds)] if rng.random() < 0.7 else rng.choice(kinds)
-    pr, why = pairs.make_pair(ctx, rng, d, mutate.BREAKING, kinds=[kind])
+    gen_kw, lang = None, "c"
+    x = rng.random()
+    if x < 0.3:
+        # few types knotted into several reference cycles, reached through one or two interfaces: the shapes on which
+        # canonical-type propagation has to be cancelled and confirmed
+        gen_kw = {"ntypes": rng.randint(3, 7), "nfuncs": rng.randint(1, 3), "nvars": rng.randint(0, 1), "back_edges": (2, 6)}
+    elif x < 0.5:
+        lang = "cxx"
+    pr, why = pairs.make_pair(ctx, rng, d, mutate.BREAKING, kinds=[kind], gen_kw=gen_kw, lang=lang)
     if pr is None:
         return r.skip(why)
     e = pr.expects[0]
+    if pr.p.lang == "cxx" and e.type_name and not e.removed:
+        # C++: the exported member functions of the classes that reach the mutated type are affected interfaces too (the
+        # report may attribute the change to one of them and list the free functions as redundant)
+        tt = pr.p.find_type(e.type_name.split(":", 1)[1])
+        if tt is not None:
+            for rec in pr.p.types:
+                if isinstance(rec, progen.Record) and rec.methods and (rec is tt or any(x is tt for x in pr.p.reach(rec, through_methods=False))):
+                    e.method_names = getattr(e, "method_names", []) + [m.name for m in rec.methods]
     what = "%s (%s) %s" % (e.kind, e.detail or e.entity or "", wl.describe_cfg(pr.cfg))
     if not pairs.debug_info_differs(pr):
         return r.skip("trivial:debug-info-identical")
@@ -79,7 +95,7 @@ def case(ctx, i):
     else:
         if e.removed and not (rc & 8):
             r.violate("oracle:C05:removal-without-incompatible-bit:" + e.kind, "removal reported with exit %s (bit 8 missing) for %s" % (rc, what), run=res.brief())
-        if not names_any(rep, e.affected):
+        if not names_any(rep, e.affected + getattr(e, "method_names", [])):
             r.violate("oracle:C05:affected-interface-not-named:" + e.kind,
                       "exit %s but none of the affected interfaces %s is named in the report for %s" % (rc, e.affected[:5], what), run=res.brief(), expect=e.to_json())
     if rng.random() < 0.5 and not e.removed:
@@ -94,6 +110,18 @@ def case(ctx, i):
                 if missing:
                     r.violate("oracle:C05:redundant-misses-interface:" + e.kind,
                               "--redundant does not name affected interfaces %s for %s" % (sorted(missing)[:4], what), run=res2.brief(), expect=e.to_json())
+    if r.violations and pr.p.lang == "cxx":
+        # how did the reader see the classes?  A C++ class recorded as declaration-only *with member functions attached*
+        # although its definition is in the debug info is a family of its own (changes below it are invisible): say so
+        xml = os.path.join(d, "a.abi")
+        w = wl.abidw(ctx, pr.a, xml)
+        if not run.abnormal(w) and w.rc == 0:
+            import re
+            doc = open(xml, "rb").read()
+            if re.search(rb"<class-decl [^>]*is-declaration-only='yes'[^>]*[^/]>\n", doc):
+                for v in r.violations:
+                    if v.key.startswith("oracle:C05:"):
+                        v.key = ":".join(v.key.split(":")[:3]) + ":a-defined-class-is-recorded-declaration-only"
     r.nontrivial = True
     r.digest = pr.digest
     r.add("configs", wl.describe_cfg(pr.cfg))
